@@ -324,22 +324,98 @@ def _rule_overrides(check, repo: Repo) -> None:
 NORAISE = {"os.path.exists", "os.path.lexists", "os.path.isdir", "os.path.isfile"}  # return False on error
 
 
-def _reach_noraise(a: EffectAnalysis, start: int, avoid: set[int]) -> set[int]:
-    """Reachability that ignores the exceptional edges of nodes whose only calls cannot raise."""
-    c = a.cfg
-    seen, stack = set(), [start]
-    while stack:
-        n = stack.pop()
-        if n in seen or n in avoid:
+def _success_flags(a: EffectAnalysis) -> dict:
+    """Success flags: locals that are only ever assigned the constants True / False.  → {name: {cfg node id of each assignment: value}}"""
+    fn = a.fn
+    vals: dict = {}
+    bad = set()
+    for n in ast.walk(fn):
+        if isinstance(n, (ast.Assign, ast.AnnAssign, ast.AugAssign, ast.NamedExpr, ast.For, ast.comprehension, ast.With)):
+            tg = n.targets if isinstance(n, ast.Assign) else ([n.target] if hasattr(n, "target") else [i.optional_vars for i in getattr(n, "items", []) if i.optional_vars is not None])
+            for t in tg:
+                for x in ast.walk(t):
+                    if isinstance(x, ast.Name):
+                        v = getattr(n, "value", None)
+                        if isinstance(n, ast.Assign) and isinstance(t, ast.Name) and isinstance(v, ast.Constant) and isinstance(v.value, bool):
+                            vals.setdefault(x.id, []).append((n, v.value))
+                        else:
+                            bad.add(x.id)
+    bad |= {p_.arg for p_ in ast.walk(fn) if isinstance(p_, ast.arg)}
+    out = {}
+    for nm, lst in vals.items():
+        if nm in bad:
             continue
-        seen.add(n)
+        d = {}
+        for st, v in lst:
+            for nid in a.cfg.node_containing(st):
+                d[nid] = v
+        out[nm] = d
+    return out
+
+
+def _reach_noraise(a: EffectAnalysis, start: int, avoid: set[int]) -> set[int]:
+    """Reachability that ignores the exceptional edges of nodes whose only calls cannot raise, and that is sensitive to SUCCESS FLAGS: a local that is only ever
+    assigned True / False (`complete = False … complete = True` after the last write … `finally: if not complete: remove(target)`).  The value of each flag is
+    carried along the path (it starts as the value whose assignment dominates `start`, is updated at every assignment passed) and the infeasible side of a test
+    on it is not followed; `if not flag and os.path.exists(target)` that comes out False with the flag False means the target is absent."""
+    c = a.cfg
+    flags = getattr(a, "_qv_flags", None)
+    if flags is None:
+        flags = a._qv_flags = _success_flags(a)
+    init = {}
+    for nm, assigns in flags.items():
+        doms = [nid for nid in assigns if nid != start and c.dominates(nid, start)]
+        if doms:
+            # the dominating assignment closest to start (the one dominated by all the others)
+            last = [d for d in doms if all(c.dominates(o, d) for o in doms)]
+            # another assignment of the flag that can also reach start makes the value unknown
+            others = [nid for nid in assigns if nid not in doms and start in c.reachable_from(nid)]
+            if last and not others:
+                init[nm] = assigns[last[0]]
+    seen, stack = set(), [(start, tuple(sorted(init.items())))]
+    reached = set()
+    while stack:
+        n, st = stack.pop()
+        if (n, st) in seen or n in avoid:
+            continue
+        seen.add((n, st))
+        reached.add(n)
+        env = dict(st)
+        node = c.nodes[n]
+        for nm, assigns in flags.items():
+            if n in assigns and n != start:
+                env[nm] = assigns[n]
         succ = set(c.succ[n])
-        exprs = a._own_exprs(c.nodes[n])
+        exprs = a._own_exprs(node)
         calls = [x for r in exprs for x in ast.walk(r) if isinstance(x, ast.Call)]
-        if n != start and c.nodes[n].kind == "test" and calls and all((call_name(x) or "") in NORAISE for x in calls):
-            succ -= (c.exc_succ[n] - c.normal_succ(n))
-        stack.extend(succ)
-    return seen
+        if n != start and node.kind == "test" and all((call_name(x) or "") in NORAISE for x in calls) and \
+                (calls or all(isinstance(x, (ast.Name, ast.UnaryOp, ast.BoolOp, ast.Constant, ast.Not, ast.And, ast.Or, ast.Load)) for r in exprs for x in ast.walk(r))):
+            succ -= (c.exc_succ[n] - c.normal_succ(n))          # a test on plain names (`if not completed:`) cannot raise either
+        if node.kind == "stmt" and isinstance(node.stmt, ast.Assign) and isinstance(node.stmt.value, ast.Constant) and all(isinstance(t_, ast.Name) for t_ in node.stmt.targets):
+            succ -= (c.exc_succ[n] - c.normal_succ(n))          # `flag = True` cannot raise
+        if node.kind == "test" and node.expr is not None and env:
+            conj = node.expr.values if isinstance(node.expr, ast.BoolOp) and isinstance(node.expr.op, ast.And) else [node.expr]
+
+            def val(e_):
+                if isinstance(e_, ast.Name) and e_.id in env:
+                    return env[e_.id]
+                if isinstance(e_, ast.UnaryOp) and isinstance(e_.op, ast.Not):
+                    v_ = val(e_.operand)
+                    return None if v_ is None else (not v_)
+                return None
+            vs = [val(e_) for e_ in conj]
+            branches = {b: c.nodes[b].polarity for b in c.succ[n] if c.nodes[b].kind == "branch" and c.nodes[b].test == n}
+            if any(v_ is False for v_ in vs):
+                succ -= {b for b, pol in branches.items() if pol}            # the test is False
+            elif all(v_ is True for v_ in vs):
+                succ -= {b for b, pol in branches.items() if not pol}        # the test is True
+            elif all(v_ is True or (v_ is None and isinstance(e_, ast.Call) and (call_name(e_) or "") in ("os.path.exists", "os.path.lexists", "os.path.isfile", "os.path.isdir"))
+                     for v_, e_ in zip(vs, conj)) and any(v_ is True for v_ in vs):
+                # flag part True, the rest is an existence test of the target: False means "nothing there" — as good as removed
+                succ -= {b for b, pol in branches.items() if not pol}
+        st2 = tuple(sorted(env.items()))
+        stack.extend((m_, st2) for m_ in succ)
+    return reached
 
 
 def _load_required_keys(load_fn: ast.AST) -> set[str]:
